@@ -5,8 +5,9 @@ core/holders.py:187‑205) in its two versions:
   * `aliasMappingOrig`  — the code as found: `alias_map | unqualified_map | qualified_map`; the later operand wins, and a
     table without alias carries its own bare name as default alias, so an alias written in the query is overridden by the
     bare name of another table of the same scope (DESIGN §6 D7);
-  * `aliasMappingFixed` — with `fixes/D7-explicit-alias-hides-bare-table-name.patch`: the aliases that were written
-    explicitly (alias ≠ the table's own bare name; every subquery alias) are appended once more and therefore win.
+  * `aliasMappingFixed` — with `fixes/D7-explicit-alias-hides-bare-table-name.patch`: explicit precedence, later wins:
+    bare / qualified table names < default alias (the bare name of a table WITHOUT alias) < alias written in the query
+    (alias ≠ the table's own bare name; every subquery alias).
 
 `Props/C08.lean` states which of the two `Holder.aliasMapping` (the model in force, `Model/HolderOps.lean`) is.
 -/
@@ -39,8 +40,10 @@ def isExplicit (e : String × (DS × String)) : Bool :=
 def aliasMappingOrig (g : LGraph) (grp : List DObj) : AliasMap :=
   aliasEdges g grp ++ unqualifiedMap grp ++ qualifiedMap grp
 
-/-- holders.py:187‑205 with the D7 repair -/
+/-- holders.py:187‑205 with the D7 repair: `unqualified_map | qualified_map | default_alias_map | explicit_alias_map`
+    (later wins): bare / qualified table names < the name of a table without alias < an alias written in the query -/
 def aliasMappingFixed (g : LGraph) (grp : List DObj) : AliasMap :=
-  aliasEdges g grp ++ unqualifiedMap grp ++ qualifiedMap grp ++ (aliasEdges g grp).filter isExplicit
+  unqualifiedMap grp ++ qualifiedMap grp ++ (aliasEdges g grp).filter (fun e => !isExplicit e) ++
+    (aliasEdges g grp).filter isExplicit
 
 end SqlLineage.Holder
